@@ -139,7 +139,7 @@ class Dgram:
 DEFAULT = {
     "suite": 0x1301, "offered": None, "ccid_len": 8, "scid_len": 8, "odcid_len": 8,
     "pn_len": 2, "pn_start": 0, "pn_gap": 1, "coalesce": "separate", "retry": False, "zero_rtt": False,
-    "ch_split": None, "ncid": None, "grease": False, "token": b"", "retry_token_len": None, "alpn": None, "vn": False,
+    "ch_split": None, "ncid": None, "grease": False, "token": b"", "retry_token_len": None, "alpn": None, "vn": False, "ch_ack_between": False,
     "script": [("c", [(0, 100)]), ("s", [(0, 300)]), ("c", [(4, 50)]), ("s", [(0, 20)])],
     "before": (), "after": (), "stream_flags": None, "early_secret_in_log": None, "sh_split": None, "tail": None,
 }
@@ -266,7 +266,8 @@ class Conn:
                 return [[qf.crypto(0, ch)[0]]]
             # split = {"cuts": (a, b..), "order": perm, "packets": bool}
             cuts = [0] + list(split["cuts"]) + [len(ch)]
-            frs = [qf.crypto(cuts[i], ch[cuts[i]:cuts[i + 1]])[0] for i in range(len(cuts) - 1)]
+            ov = split.get("overlap", 0)      # every piece but the last also repeats the first `ov` bytes of its successor
+            frs = [qf.crypto(cuts[i], ch[cuts[i]:min(len(ch), cuts[i + 1] + (ov if i < len(cuts) - 2 else 0))])[0] for i in range(len(cuts) - 1)]
             frs = [frs[i] for i in split["order"]]
             if split.get("packets"):
                 return [[f] for f in frs]
@@ -278,6 +279,12 @@ class Conn:
                 payload = b"".join(frs)
                 payload = payload + b"\x00" * max(0, 1162 - len(payload))
                 self.dgram("c", [self.long_pkt(0, "c", payload)], tag="c-initial")
+                if gi == 0 and len(groups) > 1 and s.get("ch_ack_between"):
+                    # the server acknowledges the first Initial before the rest of the ClientHello is sent: from then on the client
+                    # addresses the server by the server's connection id (RFC 9000 7.2) - the Initial keys stay those of the first DCID
+                    self.dcid_for["s"] = self.ccid
+                    self.dgram("s", [self.long_pkt(0, "s", qf.ack(largest=0, delay=0, first=0)[0] + b"\x00" * 30)], tag="s-initial-ack")
+                    self.dcid_for["c"] = self.scid
 
         if s["retry"]:
             client_initials()
